@@ -174,7 +174,7 @@ MEDIUM = ('nopc_ops_race', 'randoms', 'mutate_after_call', 'pc_ops_race0', 'pc_o
 _ALTS = {2: 150, 3: 600, 5: 2500}
 
 
-def _bound(tier, name, m, no_prss, policy):
+def _bound(tier, name, m, no_prss, policy, prop=None):
     small, medium, micro = name in SMALL, name in MEDIUM, name in MICRO
     if m > 3:
         return 0 if tier == 'quick' else 1
@@ -187,7 +187,11 @@ def _bound(tier, name, m, no_prss, policy):
             return 1 if (policy == 'eager' and not no_prss) else 0
         return 0
     if small:
-        return 2 if (m == 2 or (micro and not no_prss and policy == 'eager')) else 1
+        # two deviations: the three micro programs (C35: every small barrier program) at m = 2, and at m = 3 with PRSS, eager;
+        # everything else one deviation (two deviations on all 15 small programs made C08/C09 thorough a matter of many hours)
+        if micro or prop == 'C35':
+            return 2 if (m == 2 or (micro and not no_prss and policy == 'eager')) else 1
+        return 1
     if medium:
         return 1
     return 1 if (m == 2 or (not no_prss and policy == 'eager')) else 0
@@ -207,7 +211,7 @@ def plan(prop, tier, seed, programs=None):
             t = (m - 1) // 2
             for no_prss in (False, True):
                 for policy in ('eager', 'lazy'):
-                    bound = _bound(tier, name, m, no_prss, policy)
+                    bound = _bound(tier, name, m, no_prss, policy, prop)
                     if prop != 'C08' and bound > 1 and tier == 'quick':
                         bound = 1
                     big = name not in SMALL
